@@ -1369,7 +1369,7 @@ Proof.
   - (* CBackoff *)
     destruct Hok as (Hlt & Hpe & Hst & Hmp).
     assert (Hh : holder s i = true) by (unfold holder; rewrite Hc; reflexivity).
-    destruct ch; inversion H; subst; clear H.
+    destruct ch; [|rewrite (close_failed_recovery_owner _ _ _ _ Hmp) in H]; inversion H; subst; clear H.
     + change (Inv2 (set_clean (with_status s (s_status s)) i (Some CWake))).
       apply (clean_move_Inv2 s i CBackoff CWake _ HI Hc Hh); [discriminate| |discriminate|exact I].
       unfold clean_ok2. simpl. repeat split; auto.
@@ -1400,7 +1400,7 @@ Proof.
   - (* CFailed *)
     destruct Hok as (Hlt & Hpe & Hst & Hmp).
     assert (Hh : holder s i = true) by (unfold holder; rewrite Hc; reflexivity).
-    inversion H; subst; clear H.
+    rewrite (close_failed_recovery_owner _ _ _ _ Hmp) in H. inversion H; subst; clear H.
     apply (clean_move_Inv2 s i CFailed (CTail1 ResRecovery) Degraded HI Hc Hh); [discriminate| |reflexivity|exact I].
     unfold clean_ok2. simpl. split; auto.
   - (* CTail1 *)
@@ -1512,7 +1512,7 @@ Proof.
             try (eapply GG_ext; [| | |exact HS]; reflexivity).
           match goal with E : get_run s1 r = Some ?x |- _ => apply get_run_some in E; subst end.
           eapply GG_ext; [| | |apply (GG_upd_same s1 r); [exact HS|]]; reflexivity. }
-    all: rewrite ?Hv in H; split_hyp H; try discriminate; inversion H; subst; clear H;
+    all: unfold close_failed_recovery in H; rewrite ?Hv in H; split_hyp H; try discriminate; inversion H; subst; clear H;
       try (eapply GG_ext; [| | |exact HG]; reflexivity).
     all: unfold finish_clean; (eapply GG_ext; [| | |apply (GG_upd_same s r); [exact HG|]]; reflexivity).
   - unfold env_step in H. rewrite Hv1 in H. destruct (get_run s r); discriminate.
